@@ -145,7 +145,16 @@ void vs_ledger_dump(char *buf, size_t cap)
 void vs_mark_harness_fd(int fd)
 { if (fd >= 0 && fd < MAXFD) { pthread_mutex_lock(&mu); memset(&fds[fd], 0, sizeof fds[fd]); fds[fd].owner = VS_OWN_HARNESS; fds[fd].ep = -1; pthread_mutex_unlock(&mu); } }
 int vs_armed_timers(void)
-{ int n = 0; for (int i = 0; i < MAXFD; i++) if (fds[i].owner == VS_OWN_XCM && fds[i].armed) n++; return n; }
+{
+    /* ask the kernel: a one-shot timer that has expired is no longer armed (and its descriptor is readable) */
+    int n = 0;
+    for (int i = 0; i < MAXFD; i++)
+        if (fds[i].owner == VS_OWN_XCM && fds[i].creator == VS_TIMERFD_CREATE) {
+            struct itimerspec its;
+            if (timerfd_gettime(i, &its) == 0 && (its.it_value.tv_sec || its.it_value.tv_nsec)) n++;
+        }
+    return n;
+}
 
 static void ledger_add(int fd, int creator, int kind)
 {
